@@ -19,22 +19,30 @@ fn decode(data: &[u8]) -> Option<(Prog, Vec<(u64, u8)>)> {
     let capacity = *u.choose(&[0u32, 1, 20, 42, 43, 85]).ok()?;
     let batch = *u.choose(&[1u32, 2, 8, 120]).ok()?;
     let gmode = *u.choose(&[GuardMode::PerOp, GuardMode::PerThread, GuardMode::Pin]).ok()?;
-    let shape = u.int_in_range(0..=4u8).ok()?;
+    let hot_pat = u.int_in_range(0..=3u8).ok()?;
+    let shape = u.int_in_range(0..=5u8).ok()?;
+    let capacity = if shape == 5 { 42 } else { capacity };
     let (filler, hot_init): (u16, Vec<u16>) = match shape {
         0 => (0, vec![]),
+        // a 64-bin table at its threshold with present keys all over the table (several threads
+        // can take part in the resize)
+        5 => {
+            let m = u.int_in_range(4..=12u16).ok()?;
+            (near_threshold_filler(42, u.int_in_range(0..=2i32).ok()?, m as usize), (16..16 + m).collect())
+        }
         1 => (near_threshold_filler(capacity, u.int_in_range(0..=2i32).ok()?, 0), vec![]),
         2 => (0, (0..7).collect()),
         3 => (0, (0..8).collect()),
         _ => (0, (0..u.int_in_range(9..=12u16).ok()?).collect()),
     };
-    let capacity = if shape >= 2 && capacity < 43 { 43 } else { capacity };
-    let nthreads = u.int_in_range(2..=3usize).ok()?;
+    let capacity = if shape >= 2 && shape != 5 && capacity < 43 { 43 } else { capacity };
+    let nthreads = u.int_in_range(2..=4usize).ok()?;
     let mut threads = Vec::new();
     for _ in 0..nthreads {
         let nops = u.int_in_range(1..=4usize).ok()?;
         let mut ops = Vec::new();
         for _ in 0..nops {
-            let k = u.int_in_range(0..=13u16).ok()?;
+            let k = if shape == 5 { 16 + u.int_in_range(0..=30u16).ok()? } else { u.int_in_range(0..=13u16).ok()? };
             ops.push(match u.int_in_range(0..=13u8).ok()? {
                 0 | 1 => COp::Get(k),
                 2 => COp::GetKV(k),
@@ -52,11 +60,11 @@ fn decode(data: &[u8]) -> Option<(Prog, Vec<(u64, u8)>)> {
     }
     let mut tape = Vec::new();
     let mut step = 0u64;
-    while !u.is_empty() && tape.len() < 12 {
-        step += u.int_in_range(1..=60u64).ok()?;
+    while !u.is_empty() && tape.len() < 16 {
+        step += u.int_in_range(1..=if shape == 5 { 250u64 } else { 60u64 }).ok()?;
         tape.push((step, u.int_in_range(0..=nthreads as u8 - 1).ok()?));
     }
-    Some((Prog { cfg: CCfg { hmode, capacity, batch, gmode, hot_pat: 0 }, filler, hot_init, threads }, tape))
+    Some((Prog { cfg: CCfg { hmode, capacity, batch, gmode, hot_pat }, filler, hot_init, threads }, tape))
 }
 
 fn quiet() {
